@@ -51,6 +51,12 @@ func opOf(name string) (treefs.Op, bool) {
 		return treefs.Op{Kind: "ReadDir", P: "d"}, true
 	case "copy-f-h":
 		return treefs.Op{Kind: "CopyFile", P: "d/f", Q: "d/h"}, true
+	case "copydir-d-c":
+		return treefs.Op{Kind: "CopyDirectory", P: "d", Q: "c"}, true
+	case "write-c-new":
+		return treefs.Op{Kind: "WriteFile", P: "c/new", Data: "v1-111"}, true
+	case "mkdir-c-sub":
+		return treefs.Op{Kind: "MkdirAll", P: "c/sub"}, true
 	case "read-c-f":
 		return treefs.Op{Kind: "ReadFile", P: "c/f"}, true
 	case "read-c-g":
@@ -504,6 +510,12 @@ func programs(thorough bool) []Spec {
 			ps = append(ps, Spec{"d3", [][]string{{a}, {b}}, b2})
 		}
 	}
+	// a directory is deep-copied while other goroutines are inside the source directory's locks; the copy
+	// is then written to (whatever lock state the source had at that instant is the source's, not the copy's)
+	for _, other := range []string{"write-n-a", "readdir-d", "stream-write-f", "remove-f", "read-f-held-while-write-n"} {
+		ps = append(ps, Spec{"df", [][]string{{other}, {"copydir-d-c", "write-c-new"}}, b2})
+	}
+	ps = append(ps, Spec{"df", [][]string{{"write-n-a"}, {"readdir-d"}, {"copydir-d-c", "mkdir-c-sub"}}, b3})
 	// first use of a freshly copied directory from several goroutines
 	cops := []string{"read-c-f", "read-c-g", "isfile-c-h", "write-c-f", "lstat-c-g"}
 	for i, a := range cops {
@@ -568,7 +580,7 @@ func replay(wj json.RawMessage) (*fw.Violation, error) {
 
 func init() {
 	fw.Register(&fw.Check{ID: "C09", Level: "model_checking",
-		Rule: "programs = (16 programs of first uses - reads, stat, write - of a directory that was just deep-copied) + initial tree {empty, {d/f}} x (and, with three files d/f, d/g, d/h in one directory, all pairs of 8 operations on distinct names plus 4 larger programs) x (all unordered pairs of 12 single operations on a shared directory d and file d/f: WriteFile x2, ReadFile, writer and reader streams held open across a scheduling point, MkdirAll, nested write, Remove, RemoveAll, ReadDir, CopyFile, new-node write; 8 three-thread programs; 4 two-operation programs; 8 programs holding a reader or a writer open across another operation of the same thread, against stream writes, plain writes, reads and copies of that file into the same directory; 2 programs in which a refused write (onto a directory) is followed by and races with successful writes in the same directory); every schedule of the real memfs with <= bound preemptions (pairs 3/8, triples 2/4, 2x2 3/5 for quick/thorough); oracle: the call/return history plus the final tree must be linearizable w.r.t. the tree model (porcupine), structural sanity of the final tree, no panic, no deadlock, race oracle on memfs fields. states = distinct schedule traces",
+		Rule: "programs = (6 programs in which a directory is deep-copied while other goroutines are inside the source directory's locks, and the copy is then written to) + (16 programs of first uses - reads, stat, write - of a directory that was just deep-copied) + initial tree {empty, {d/f}} x (and, with three files d/f, d/g, d/h in one directory, all pairs of 8 operations on distinct names plus 4 larger programs) x (all unordered pairs of 12 single operations on a shared directory d and file d/f: WriteFile x2, ReadFile, writer and reader streams held open across a scheduling point, MkdirAll, nested write, Remove, RemoveAll, ReadDir, CopyFile, new-node write; 8 three-thread programs; 4 two-operation programs; 8 programs holding a reader or a writer open across another operation of the same thread, against stream writes, plain writes, reads and copies of that file into the same directory; 2 programs in which a refused write (onto a directory) is followed by and races with successful writes in the same directory); every schedule of the real memfs with <= bound preemptions (pairs 3/8, triples 2/4, 2x2 3/5 for quick/thorough); oracle: the call/return history plus the final tree must be linearizable w.r.t. the tree model (porcupine), structural sanity of the final tree, no panic, no deadlock, race oracle on memfs fields. states = distinct schedule traces",
 		Run: run, Replay: replay,
 		Assumptions: []string{"linearizability against the tree model is used as the meaning of 'takes effect and is visible afterwards'; a stream counts as one operation from open to close", "2-3 threads; bounds as reported; word-sized fields outside the race oracle"}})
 }
